@@ -221,9 +221,15 @@ impl ProtocolRequestBuilder for crate::Request {
 impl From<HttpResponse> for crate::ResponseAsync {
     fn from(effect_response: HttpResponse) -> Self {
         let mut res = http_types::Response::new(effect_response.status);
-        res.set_body(effect_response.body);
         for header in effect_response.headers {
             res.append_header(header.name.as_str(), header.value);
+        }
+        // `set_body` adds a `content-type: application/octet-stream` header when there is none;
+        // the response must carry the headers the shell reported, no more
+        let has_content_type = res.header(http_types::headers::CONTENT_TYPE).is_some();
+        res.set_body(effect_response.body);
+        if !has_content_type {
+            res.remove_header(http_types::headers::CONTENT_TYPE);
         }
 
         crate::ResponseAsync::new(res)
